@@ -306,6 +306,40 @@ async fn run(mut sim: Sim, seed: u64, streams: usize) -> Result<Value, String> {
         settle(&mut sim, 300).await;
         sim.obs_all_peers();
     }
+    // a peer that keeps coming back, each time leaving a connection's worth of requests behind whose
+    // handlers never answer: whatever the victim counts per request is given back when the connection
+    // ends, however it ends - after more than a thousand of them it serves as on the first day
+    if seed % 4 == 1 {
+        for visit in 0..12u32 {
+            let (ep, _addr) = adv::endpoint(&sim.run.fabric, None).map_err(|e| e.to_string())?;
+            let cc = adv::client_config(Some((vec![CertificateDer::from(a_cert.as_ref().to_vec())], adv::ed_key_der(&a_key))), None);
+            let conn = ep.connect_with(cc, sim.addr(v), "net").map_err(|e| e.to_string())?.await.map_err(|e| format!("adversary connect: {e}"))?;
+            sim.run.obs(100, "adv.dial_tls", json!({"gid": adv::gid_of(&sim.run, &conn), "to": v}));
+            adv::dialer_wait_ack(&conn).await.map_err(|e| format!("adversary ack: {e}"))?;
+            let payload = hostile_payload(&mut rng, 19);
+            let mut left = 0u32;
+            for _ in 0..95 {
+                if let Ok(Ok((mut tx, rx))) = tokio::time::timeout(Duration::from_secs(5), conn.open_bi()).await {
+                    let _ = tx.write_all(&payload).await;
+                    let _ = tx.finish();
+                    std::mem::forget(tx);
+                    std::mem::forget(rx);
+                    left += 1;
+                    hostile_streams += 1;
+                }
+            }
+            sim.run.obs(100, "adv.stream", json!({"class": 19, "len": payload.len(), "ending": "left-behind-at-close", "count": left, "visit": visit}));
+            settle(&mut sim, 40).await;
+            match visit % 3 {
+                0 => conn.close(7u32.into(), b"back soon"),
+                1 => drop(conn),
+                _ => { ep.close(0u32.into(), b""); }
+            }
+            drop(ep);
+            settle(&mut sim, 150).await;
+        }
+        settle(&mut sim, 300).await;
+    }
     for t in honest {
         let _ = tokio::time::timeout(Duration::from_secs(600), t).await;
     }
